@@ -90,6 +90,23 @@ theorem C27_remove_refines (hash : K → Int) (eq : K → K → Bool) (law : Law
       t'.len = t.len - (if (d k).isSome then 1 else 0) :=
   remove_spec law t d hm k
 
+/-- `m[k] op= v` through the `Index` impl of the map (`index_get`, then `index_set`): the `panic` of `get` when
+    the key is absent (nothing is inserted), otherwise the value is replaced by `f` of the old one and `len`
+    stays as it is. -/
+theorem C27_index_update_refines (hash : K → Int) (eq : K → K → Bool) (law : Lawful hash eq)
+    (t : Table K V) (d : K → Option V) (hm : Models hash eq t d) (k : K) (f : V → V) :
+    (d k = none → indexUpdate hash eq t k f = .error .panic) ∧
+    (∀ x, d k = some x → ∃ t', indexUpdate hash eq t k f = .ok t' ∧
+      Models hash eq t' (fun k' => if eq k k' = true then some (f x) else d k') ∧ t'.len = t.len) := by
+  have hg := (C27_get_refines hash eq law t d hm k).1
+  constructor
+  · intro hn
+    simp only [indexUpdate, indexGet, hg, hn]
+  · intro x hx
+    obtain ⟨t', e, e2, hm', hc⟩ := C27_insert_refines hash eq law t d hm k (f x)
+    refine ⟨t', by simp only [indexUpdate, indexGet, hg, hx, e2], hm', ?_⟩
+    rw [hc, hx]; simp
+
 /-- `resize` keeps the invariant and the represented dictionary, doubles the buckets (4 at first). -/
 theorem C27_resize_refines (hash : K → Int) (eq : K → K → Bool)
     (t : Table K V) (d : K → Option V) (hm : Models hash eq t d) :
@@ -116,6 +133,7 @@ def derase (eq : K → K → Bool) (k : K) : List (K × V) → List (K × V)
 inductive Op (K V : Type) where
   | insert (k : K) (v : V) | indexSet (k : K) (v : V)
   | tryGet (k : K) | get (k : K) | indexGet (k : K) | contains (k : K) | remove (k : K) | len
+  | indexUpd (k : K) (f : V → V)      -- `m[k] op= v`
 
 /-- what the program prints for an operation (`fault` = the model hit an internal error) -/
 inductive Out (V : Type) where
@@ -146,6 +164,11 @@ def runTable (hash : K → Int) (eq : K → K → Bool) : Table K V → List (Op
     | .ok (t', b) => (.bool b, t'.len) :: runTable hash eq t' ops
     | .error e => [(.fault e, 0)]
   | t, .len :: ops => (.int t.len, t.len) :: runTable hash eq t ops
+  | t, .indexUpd k f :: ops =>
+    match indexUpdate hash eq t k f with
+    | .ok t' => (.unit, t'.len) :: runTable hash eq t' ops
+    | .error .panic => [(.panic, 0)]
+    | .error e => [(.fault e, 0)]
 
 /-- the same history on the reference dictionary -/
 def runDict (eq : K → K → Bool) : List (K × V) → List (Op K V) → List (Out V × Int)
@@ -161,6 +184,10 @@ def runDict (eq : K → K → Bool) : List (K × V) → List (Op K V) → List (
   | s, .remove k :: ops =>
     (.bool (dlookup eq k s).isSome, ((derase eq k s).length : Int)) :: runDict eq (derase eq k s) ops
   | s, .len :: ops => (.int s.length, (s.length : Int)) :: runDict eq s ops
+  | s, .indexUpd k f :: ops =>
+    match dlookup eq k s with
+    | some x => (.unit, ((dinsert eq k (f x) s).length : Int)) :: runDict eq (dinsert eq k (f x) s) ops
+    | none => [(.panic, 0)]
 
 /-- no two entries of the association list have equal keys -/
 def NoDupKeys (eq : K → K → Bool) (s : List (K × V)) : Prop := s.Pairwise (fun a b => eq a.1 b.1 = false)
@@ -361,8 +388,21 @@ theorem sim_run (hash : K → Int) (eq : K → K → Bool) (law : Lawful hash eq
     | len =>
       simp only [runTable, runDict, hlen]
       rw [ih t s ⟨hm, hlen, hnd⟩]
+    | indexUpd k f =>
+      have hu := C27_index_update_refines hash eq law t _ hm k f
+      simp only [runTable, runDict]
+      cases hx : dlookup eq k s with
+      | none => simp only [hu.1 hx]
+      | some x =>
+        obtain ⟨t', e, hm', hc⟩ := hu.2 x hx
+        have hl : t'.len = ((dinsert eq k (f x) s).length : Int) := by
+          rw [hc, hlen, dinsert_length, hx]; simp
+        have hs' : Sim hash eq t' (dinsert eq k (f x) s) :=
+          ⟨models_congr hm' (fun k' => dlookup_dinsert law k (f x) k' s), hl, dinsert_nodup law k (f x) s hnd⟩
+        simp only [e, hl]
+        rw [ih t' _ hs']
 
-/-- **The map refines the dictionary.**  For ANY history of insert / `m[k] = v` / try_get / get / `m[k]` /
+/-- **The map refines the dictionary.**  For ANY history of insert / `m[k] = v` / `m[k] op= v` / try_get / get / `m[k]` /
     contains / remove / len, starting from `map.new()`, the hash table prints exactly what the
     reference dictionary (an association list) prints — results and `len()` after every operation, and
     the `panic` of `get` on an absent key — for any `Hash`/`Equal` pair where equality is an
